@@ -66,6 +66,8 @@ def gen_query(rng):
         jt = rng.choice(["inner", "left", "right", "full"])
         equi = rng.random() < 0.7
         cond = "a.x = b.x" + (f" and {pred(rng, [A, B])}" if rng.random() < 0.3 else "") if equi else pred(rng, [A, B])
+        if equi and rng.random() < 0.2:
+            cond = "a.x = b.x and a.y = b.z"       # a composite key: NULL in one component must prevent the match
         where = f" where {pred(rng, [A, B])}" if rng.random() < 0.25 else ""
         tags |= {"join", jt} | ({"nonequi"} if not equi or "and" in cond else set())
         if jt != "inner" and (cond != "a.x = b.x" or where):
@@ -77,7 +79,7 @@ def gen_query(rng):
             sub = "select x from b" + (f" where z > {rng.randint(0, 2)}" if rng.random() < 0.4 else "")
             tags |= {"in", "neg" if neg else "pos"}
             return f"select x, y from a where x {'not ' if neg else ''}in ({sub})", None, tags
-        corr = rng.choice(["b.x = a.x", "b.x = a.x", "b.x = a.x and b.z > a.y", "b.z > a.y", "b.x <= a.x and b.z >= a.y"])
+        corr = rng.choice(["b.x = a.x", "b.x = a.x", "b.x = a.x and b.z > a.y", "b.z > a.y", "b.x <= a.x and b.z >= a.y", "b.x = a.x and b.z = a.y"])
         tags |= {"exists", "neg" if neg else "pos"}
         return f"select x, y from a where {'not ' if neg else ''}exists (select * from b where {corr})", None, tags
     if k < 0.85:
